@@ -1,7 +1,7 @@
 """C16 - VCF output states exactly the genotypes of the tree sequence (structural clauses)."""
 from __future__ import annotations
 
-from . import scopes, lib_py, lib_vcf, lib_variant, lib_module, lib_newick
+from . import scopes, lib_py, lib_vcf, lib_variant, lib_module, lib_newick, lib_mem
 
 LEVEL = "other"
 EXPLANATION = ("Mask-normalisation discipline in VcfWriter, option forwarding from write_vcf/as_vcf/CLI under the same names, "
@@ -19,5 +19,10 @@ def run(ctx):
     P = ctx.program()
     lib_vcf.mark_missing(ctx, P)
     lib_variant.variant_decode(ctx, P)
+    lib_variant.traversal_push(ctx, P, tus=["genotypes"])
+    lib_variant.sample_walks(ctx, P, tus=("genotypes",), floor=1)
+    lib_py.decode_every(ctx, py)
+    lib_py.py_width(ctx, py, mods=("vcf", "trees"), only=ps)
     lib_module.options_plumbing(ctx, P, funcs={"Variant_init"})
     lib_py.alias_polarity(ctx, py)
+    lib_mem.c_lints(ctx, P, scopes.lib_scope("C16"), tus=["genotypes"])
